@@ -1,6 +1,7 @@
 package main
 
 import (
+	"os"
 	"fmt"
 	"strings"
 
@@ -10,7 +11,7 @@ import (
 func init() {
 	families["C08"] = famC08
 	rules["C08"] = "random ASTs over all operators (towers mixing or/and/=/!=/</<=/>/>=/+/-/*/div/mod/unary minus/|), paths with all abbreviations, predicates, filter expressions, calls, variables, literals and numerals, with names containing '-', '.', digits and names that spell axes and node types; " +
-		"each rendered with minimal parentheses, with redundant parentheses, with arbitrary legal whitespace and in the two canonical forms of Syn/Render.v, steps in full and abbreviated (which the model parser provably reads back to the AST: Syn/LexThm.v): BuildExpr must accept every rendering and the compiled query must evaluate like the AST (the model evaluator on the AST), i.e. identically across renderings; " +
+		"each rendered with minimal parentheses, with redundant parentheses, with arbitrary legal whitespace and in three canonical forms of Syn/Render.v - steps in full, abbreviated, abbreviated with redundant parentheses everywhere and random runs of space/tab/CR/LF between the tokens - (which the model parser provably reads back to the AST: Syn/LexThm.v): BuildExpr must accept every rendering and the compiled query must evaluate like the AST (the model evaluator on the AST), i.e. identically across renderings; " +
 		"the model's own parser must read every rendering back to an AST with the same value (validates the string side of the model); hand-picked token-boundary cases (a-b, a -b, a - b, * * *, a*b, child::child, 4 div 2, //*, /*); " +
 		"non-expressions: character- and token-level mutations of valid renderings: accepted/rejected and the value must agree with the model parser (spec), so nothing is accepted with a part ignored; " +
 		"disagreements explained by the three lexical restrictions of the generated lexer are the open known finding; 200 repeated BuildExpr of one string must evaluate identically; non-trivial: the expression has >= 2 binary operators of different precedence or an abbreviation; distinct by text"
@@ -115,10 +116,16 @@ func famC08(rn *Runner) {
 				return impl
 			}
 			asis := rn.M.Ask(fmt.Sprintf("(pq %d (p) %s 1 %s)", d.ID, env.Sx(), sxStr(text)))
-			if strings.HasPrefix(asis, "E") {
-				asis = "E"
+			anyReading := false
+			for _, alt := range strings.Split(asis, " || ") {
+				if strings.HasPrefix(alt, "E") {
+					alt = "E"
+				}
+				if agree(impl, alt) || (impl == "E" && alt == "E") {
+					anyReading = true
+				}
 			}
-			if agree(impl, asis) || (impl == "E" && asis == "E") {
+			if anyReading {
 				if rn.St.Known == nil {
 					rn.St.Known = map[string]int{}
 				}
@@ -186,13 +193,17 @@ func famC08(rn *Runner) {
 			}
 			// the canonical renderings of Syn/Render.v (steps in full / abbreviated), which Syn/LexThm.v proves the
 			// model parser reads back to this AST
-			for _, ab := range []string{"0", "1"} {
-				fam := map[string]string{"0": "canonical-rendering", "1": "canonical-abbreviated"}[ab]
+			for _, ab := range []string{"0", "1", "2"} {
+				fam := map[string]string{"0": "canonical-rendering", "1": "canonical-abbreviated", "2": "canonical-redundant-parentheses"}[ab]
 				if can := rn.M.Ask("(render " + ab + " " + SxExpr(e) + ")"); strings.HasPrefix(can, "S ") {
-					rc := check(decodeStr(can), fam, e, nontrivial)
+					text := decodeStr(can)
+					if ab == "2" {
+						text = respace(r, text) // the white-space theorem: any non-empty run of space/tab/CR/LF after each token
+					}
+					rc := check(text, fam, e, nontrivial)
 					if rc != r0 && !(strings.HasPrefix(rc, "L") && strings.HasPrefix(r0, "L") && agree(rc, r0)) && !rn.TooMany() {
-						rn.Report(&Replay{Family: fam, Clause: "all renderings of one AST evaluate identically", Kind: "parse", Events: d.Events, Doc: showEvents(d.Events), Env: env, Text: decodeStr(can), ExprSx: SxExpr(e), Impl: rc, Model: r0, Note: "minimal rendering: " + minimal},
-							fmt.Sprintf("%q evaluates to %s but %q (the same AST) to %s", decodeStr(can), rc, minimal, r0))
+						rn.Report(&Replay{Family: fam, Clause: "all renderings of one AST evaluate identically", Kind: "parse", Events: d.Events, Doc: showEvents(d.Events), Env: env, Text: text, ExprSx: SxExpr(e), Impl: rc, Model: r0, Note: "minimal rendering: " + minimal},
+							fmt.Sprintf("%q evaluates to %s but %q (the same AST) to %s", text, rc, minimal, r0))
 					}
 				} else {
 					rn.Count(fam + ":none (" + can + ")")
@@ -270,6 +281,35 @@ func init() {
 		if strings.HasPrefix(spec, "E") {
 			spec = "E"
 		}
+		if os.Getenv("XVH_SHOW_ASIS") != "" {
+			fmt.Println("as-is model:", rn.M.Ask(fmt.Sprintf("(pq %d (p) %s 1 %s)", d.ID, env.Sx(), sxStr(rp.Text))))
+		}
 		return impl, spec, agree(impl, spec) || (impl == "E" && spec == "E")
 	}
+}
+
+// respace replaces the single space after each token of a canonical text (outside string literals) by a random
+// non-empty run of XML white space
+func respace(r *Rng, s string) string {
+	var b strings.Builder
+	var quote rune
+	for _, c := range s {
+		switch {
+		case quote != 0:
+			b.WriteRune(c)
+			if c == quote {
+				quote = 0
+			}
+		case c == '"' || c == '\'':
+			quote = c
+			b.WriteRune(c)
+		case c == ' ':
+			for k := 1 + r.Intn(3); k > 0; k-- {
+				b.WriteString(pick(r, []string{" ", "\t", "\n", "\r", " "}))
+			}
+		default:
+			b.WriteRune(c)
+		}
+	}
+	return b.String()
 }
